@@ -17,6 +17,22 @@ claimed = {
                 note="Outside: resources generated from the selected service sets.", ref="§4 C07"),
 }
 
+claimed.update({
+    "C02": dict(text="Merge algebra of PushRequest.Merge/CopyMerge (union of keys, forced OR, newest snapshot, oldest start, reason counts add, operands untouched/unshared) for every pair of "
+                     "requests inside the bound, and a bounded model check of the real PushQueue (Enqueue/Dequeue/MarkDone) with a ghost 'owed' state: one push in flight, nothing owed is lost, FIFO, shared request never mutated.",
+                note="Outside: gRPC stream loops; debounce/doSendPushes under schedules only where the evidence lists those harnesses.", ref="§4 C02"),
+    "C10": dict(text="Real snapshot construction (initAuthenticationPolicies), selection (getConfigsForWorkload) and ComposePeerAuthentication compared with the documented precedence "
+                     "(port > workload > namespace > mesh, oldest wins, ties by name, UNSET inherits, default PERMISSIVE) for every policy set inside the bound, every insertion order, symbolic creation times incl. ties; "
+                     "client-side namespace mode agrees with the server side.",
+                note="Outside: filter-chain assembly, ambient conversion, passthrough inference.", ref="§4 C10"),
+    "C11": dict(text="xDS identity check (authorize/checkConnectionIdentity/ParseIdentity) against the SPIFFE grammar for every presented identity string within the length bound; "
+                     "SDS gate: for every resource name (scheme menu + symbolic suffix), identity, RBAC answer, verified-reference set and cache state, key material is fetched only for the verified namespace and an authorised caller "
+                     "(or a verified gateway reference), Authorize is asked only about the verified identity, and every cache lookup happens after the gate.",
+                note="Outside: SubjectAccessReview back end, TLS peer extraction.", ref="§4 C11"),
+    "C19": dict(text="injectRequired decided against the documented precedence for every combination of hostNetwork, namespace vs ignored list, label/annotation presence and arbitrary values, 0-2 never/always selectors with arbitrary validity/emptiness/match, and arbitrary policy string.",
+                note="Outside: idempotent re-injection and container preservation (template/YAML/JSON-patch machinery).", ref="§4 C19"),
+})
+
 na = {
 }
 
